@@ -22,7 +22,8 @@ results = meta.get("our_checks", {})
 try:
     for p in props:
         t = time.time()
-        r = subprocess.run("./check %s" % p, shell=True, cwd="/verif", capture_output=True, text=True, timeout=3000)
+        r = subprocess.run("./check %s" % p, shell=True, cwd="/verif", capture_output=True, text=True, timeout=3000,
+                               env=dict(os.environ, VERIF_EVIDENCE_DIR="/tmp/verif_evidence_seeded"))
         lines = [l for l in r.stdout.split("\n") if l.startswith("VIOLATION")]
         rep = None
         for l in lines:
